@@ -371,6 +371,8 @@ CMP_CONFIGS = [
     # element-wise path
     ("P:u32,P:f32", "std"), ("P:f64,F:f32", "s000"), ("P:str,F:str", "s000"), ("C:u32,V:str,P:Tr8", "s101"), ("P:Tr4,F:Tr8", "s000"), ("P:B3,P:B12@4", "s111d"),
     ("F:f32,P:u32,C:u64@8,V:f32", "s000"), ("P:u8,C:u16,V:f32@8,P:i8", "std"), ("C:u16,V:f64,C:u8,V:u8", "s000"),
+    # class types whose == / < are not bytewise although they have no padding bits
+    ("P:M8,F:M8", "s000"), ("P:u8,P:M8,C:u8,V:M8", "std"),
 ]
 CMP_RULE = {
     "C13": "per case a pool of 7 logical elements (equal pair, one-item differences, prefix-related spans, values {0,1,2,255} and for floating fields also -0.0 and NaN) and 10 logical vectors over them, each materialised 3x (exact / spare capacity, 3 junk patterns, 2 arenas, 2 allocator types; references, const references, elements); all ordered pairs in 13 operand-kind combinations; ==/!= compared with field-wise equality of freshly made values; non-trivial: the pool contains a pair differing in exactly one item or prefix-related; distinct: hash of the pool",
@@ -378,7 +380,7 @@ CMP_RULE = {
 }
 
 
-CMP_FAMILY_TYPES = ["u8", "u16", "u32", "u64", "byte", "char", "bool", "i8", "i32", "ptr", "f32", "B3"]
+CMP_FAMILY_TYPES = ["u8", "u16", "u32", "u64", "byte", "char", "bool", "i8", "i32", "ptr", "f32", "B3", "M8"]
 
 
 def cmp_family(rng, count):
@@ -508,7 +510,7 @@ def run_elem_check(tier):
 
 # ---------------------------------------------------------------------------------------------- C15 emplace
 EMPLACE_GROUPS = 6
-EMPLACE_RULE = "finite grid, enumerated completely: 24 type pairs (incl. sources whose conversion depends on the value category) (same type, integral / floating conversions, bool, enums, classes with converting constructor or conversion operator, std::string, pointers, instrumented and move-only types) x 13 source forms (std::array / std::vector / C array / std::list as lvalue and rvalue, generated input range, pointer, contiguous and node iterators, move_iterator, counting input iterator) x FixedSize / VaryingSize x lengths 0..5, as C++17 and C++20; stored values compared with static_cast<T>(source item) computed beforehand, lvalue sources compared before / after, moves and copies counted by the instrumented type, consumption counted by the input iterator; non-trivial: length > 0; distinct: the cell"
+EMPLACE_RULE = "finite grid, enumerated completely: 25 type pairs (incl. sources whose conversion depends on the value category and a type with trivial copy but user-provided move) (same type, integral / floating conversions, bool, enums, classes with converting constructor or conversion operator, std::string, pointers, instrumented and move-only types) x 15 source forms (std::array / std::vector / C array / std::list as lvalue and rvalue, generated input range, pointer, contiguous, node, reverse and deque iterators, move_iterator, counting input iterator) x FixedSize / VaryingSize x lengths 0..5, as C++17 and C++20; stored values compared with static_cast<T>(source item) computed beforehand, lvalue sources compared before / after, moves and copies counted by the instrumented type, consumption counted by the input iterator; non-trivial: length > 0; distinct: the cell"
 
 
 def emplace_units(tier, seed):
@@ -597,7 +599,7 @@ def run_race_check(tier):
 
 
 # ---------------------------------------------------------------------------------------------- layout engine (C02-C05)
-LAYOUT_TYPES = ["u8", "u16", "u32", "u64", "f32", "B3", "B12", "char", "bool"]
+LAYOUT_TYPES = ["u8", "u16", "u32", "u64", "f32", "B3", "B12", "char", "bool", "M8"]
 LAYOUT_CORE = [
     # the suite's typedefs and the shapes behind the layout defects found so far
     "P:u32,P:f32", "P:char,P:u32@8", "P:u32,F:f32", "F:f32,P:u32,F:f32", "P:u32,F:f32@32", "F:f32@8,P:u32@16,F:f32", "F:f32@32,F:u32,P:u32", "P:u32,C:u64@8,V:f32",
